@@ -1,7 +1,7 @@
 ---- MODULE SFlowGenMC ----
 EXTENDS SFlowGen
 CatAll == {"f_tcp", "f_vlan", "f_v6", "f_icmp6", "f_ip4", "f_ip6", "f_ip4tcp", "f_none", "c_gen", "c_rings", "c_vlan",
-           "x_expflow", "x_expctr", "x_vendor"}
+           "x_expflow", "x_expctr", "x_vendor", "x_zero", "f_tci0"}
 CatQ == {"f_vlan", "f_v6", "f_icmp6", "f_ip4", "f_ip4tcp", "c_gen", "c_rings", "x_expflow", "x_vendor"}
 FiltersAll == {{}, {1}, {2}, {3}, {1, 2}, {7}, {2, 3}, {4, 1}}
 ====
